@@ -123,6 +123,15 @@ class LoopSpec:
 
     # -- for loops over a sequence
     def run_for(self, I, node, it, fr):
+        is_range = False
+        if isinstance(it, sym.VBuiltin) and it.name == 'range':
+            # range(n) with symbolic n: the sequence 0, 1, ..., n-1 (each element equals its index)
+            if len(it.bounds) != 1:
+                raise Unsupported('symbolic range with start/step')
+            rt = z3.Const(sym.fresh_name('range'), z3.SeqSort(z3.IntSort()))
+            I.st.assume(z3.Length(rt) == z3.If(it.bounds[0] >= 0, it.bounds[0], 0))
+            it = VSeq(rt, sym.K_INT)
+            is_range = True
         t, k = I.seq_term(it)
         self._type_locals(I, fr)
         self._capture_entry(I, fr)
@@ -137,6 +146,8 @@ class LoopSpec:
             m = z3.Const(sym.fresh_name('m'), k.sort)
             R = z3.Const(sym.fresh_name('R'), t.sort())
             I.st.assume(t == z3.Concat(P, z3.Unit(m), R))
+            if is_range:
+                I.st.assume(m == z3.Length(P))
             self._assume(I, fr, {'_P': VSeq(P, k), '_S': S, '_R': VSeq(z3.Concat(z3.Unit(m), R), k)})
             I.assign(node.target, k.wrap(m), fr)
             try:
@@ -181,7 +192,9 @@ class LoopSpec:
             except ContinueSignal:
                 pass
             except BreakSignal:
-                raise Unsupported('break inside a loop with invariant')
+                # leaving the loop from inside an arbitrary iteration: the path continues after the loop
+                # with the state reached here (no invariant needed for it)
+                return
             self._check(I, fr, {}, 'step')
             if d0 is not None:
                 d1 = I.num(I.eval_spec(self.decreases, fr))
